@@ -36,6 +36,8 @@ CONSTANTS
                 \*  {"restart","reject","crash","crashrec","power","aux","iofail","corrupt"}
     SyncWal,    \* options.sync_wal
     SyncData,   \* options.sync_data
+    InitRid,    \* first log record id / last commit id of the session (1 / 0 on a fresh handle; traces
+    InitCid,    \*   recorded after an index-growth preamble start later)
     Mut         \* set of deliberately broken rules (necessity configs); {} = the real design
 
 VARIABLES
@@ -47,7 +49,9 @@ VARIABLES
     covl,       \* commit overlay: [Loc -> [cid, v]] (cid = 0: no entry; v = 0: removed)
     lw,         \* log worker: [pc, cid, tx, rec]
     nextRid,    \* Log.next_record_id
-    logs,       \* log files on disk, oldest first: Seq of [recs, st, partial]
+    logs,       \* log files on disk, oldest first: Seq of [recs, st, partial, syn, id]
+    pool,       \* ids of truncated log files waiting for reuse (log.rs log_pool, lowest id first)
+    nextLogId,  \* Log.next_log_id
     rpos,       \* records already enacted from the file in state "rd"
     lovl,       \* log overlay: [Loc -> [rid, e]] (rid = 0: no entry)
     cw,         \* commit worker: [pc, rec, todo]
@@ -66,7 +70,7 @@ VARIABLES
     cur,        \* an open btree iterator: [open, c, t, k] (position Start | End | At(k) | Seeked(k))
     trace       \* history of steps (only when Gen)
 
-vars == <<hist, logical, calls, queue, nextCid, covl, lw, nextRid, logs, rpos, lovl, cw,
+vars == <<hist, logical, calls, queue, nextCid, covl, lw, nextRid, logs, pool, nextLogId, rpos, lovl, cw,
           lastEnacted, tabs, dtabs, flushedCq, applied, durable, mode, rcv, ncrash, naux,
           lastRec, rdr, cur, trace>>
 
@@ -180,6 +184,8 @@ HasApp == Len(logs) > 0 /\ logs[Len(logs)].st = "app"
 MinOf(S) == CHOOSE x \in S : \A y \in S : x <= y
 MaxOf(S) == CHOOSE x \in S : \A y \in S : x >= y
 NumCq == Cardinality(FileIdx("cq"))
+\* (coverage) a recycled low-numbered file holds newer records than a higher-numbered one
+IdInversion == \E i, j \in 1..Len(logs) : i < j /\ logs[i].id > logs[j].id
 
 ----------------------------------------------------------------------------
 (* History variable *)
@@ -202,9 +208,9 @@ NoLog  == UNCHANGED trace
 
 ----------------------------------------------------------------------------
 Init ==
-    /\ hist = <<>> /\ logical = Empty /\ calls = 0 /\ queue = <<>> /\ nextCid = 0
+    /\ hist = <<>> /\ logical = Empty /\ calls = 0 /\ queue = <<>> /\ nextCid = InitCid
     /\ covl = [l \in Loc |-> NoCovl]
-    /\ lw = Idle /\ nextRid = 1 /\ logs = <<>> /\ rpos = 0
+    /\ lw = Idle /\ nextRid = InitRid /\ logs = <<>> /\ pool = {} /\ nextLogId = 0 /\ rpos = 0
     /\ lovl = [l \in Loc |-> NoLovl]
     /\ cw = Idle /\ lastEnacted = 1
     /\ tabs = Empty /\ dtabs = Empty /\ flushedCq = 0 /\ applied = 0 /\ durable = 0
@@ -222,7 +228,7 @@ Init ==
 
 CovlReadLocked == rdr.pc \in {"lovl", "tabs"}
 
-OthersUnchanged == UNCHANGED <<hist, logical, calls, queue, nextCid, covl, lw, nextRid, logs, rpos, lovl,
+OthersUnchanged == UNCHANGED <<hist, logical, calls, queue, nextCid, covl, lw, nextRid, logs, pool, nextLogId, rpos, lovl,
                                cw, lastEnacted, tabs, dtabs, flushedCq, applied, durable, mode, rcv, ncrash,
                                naux, lastRec, cur, trace>>
 
@@ -265,7 +271,7 @@ Commit(tx) ==
     /\ UNCHANGED cur
     /\ queue' = Append(queue, [cid |-> nextCid + 1, h |-> Len(hist) + 1, tx |-> tx])
     /\ covl' = CovlAdd(covl, nextCid + 1, tx, 1)
-    /\ UNCHANGED <<lw, nextRid, logs, rpos, lovl, cw, lastEnacted, tabs, dtabs,
+    /\ UNCHANGED <<lw, nextRid, logs, pool, nextLogId, rpos, lovl, cw, lastEnacted, tabs, dtabs,
                    flushedCq, applied, durable, mode, rcv, ncrash, naux, lastRec>>
     /\ Log([a |-> "Commit", tx |-> tx, ok |-> TRUE, obs |-> Obs'])
 
@@ -275,7 +281,7 @@ Reject(tx) ==
     /\ mode \in {"open", "err"} /\ calls < MaxCalls
     /\ (mode = "open") => ~ValidTx(tx)
     /\ calls' = calls + 1
-    /\ UNCHANGED <<hist, logical, queue, nextCid, covl, lw, nextRid, logs, rpos, lovl, cw,
+    /\ UNCHANGED <<hist, logical, queue, nextCid, covl, lw, nextRid, logs, pool, nextLogId, rpos, lovl, cw,
                    lastEnacted, tabs, dtabs, flushedCq, applied, durable, mode, rcv, ncrash,
                    naux, lastRec, rdr, cur>>
     /\ Log([a |-> "Commit", tx |-> tx, ok |-> FALSE, obs |-> Obs'])
@@ -285,7 +291,14 @@ Reject(tx) ==
 
 AppendRec(rec) ==
     IF HasApp THEN [logs EXCEPT ![Len(logs)].recs = Append(@, rec)]
-    ELSE Append(logs, [recs |-> <<rec>>, st |-> "app", partial |-> FALSE, syn |-> FALSE])
+    ELSE Append(logs, [recs |-> <<rec>>, st |-> "app", partial |-> FALSE, syn |-> FALSE,
+                       id |-> IF pool # {} THEN MinOf(pool) ELSE nextLogId])
+\* log.rs end_record: "Find a log file in the pool or create a new one"
+AppendPool ==
+    IF HasApp THEN UNCHANGED <<pool, nextLogId>>
+    ELSE IF pool # {} THEN pool' = pool \ {MinOf(pool)} /\ UNCHANGED nextLogId
+    ELSE nextLogId' = nextLogId + 1 /\ UNCHANGED pool
+KeepPool == UNCHANGED <<pool, nextLogId>>
 
 \* pop the queue head and plan its record against lovl + tables
 PopAndPlan ==
@@ -295,7 +308,7 @@ PopAndPlan ==
                  rec |-> PlanRec(nextRid, c.h, c.cid, c.tx, View)]
        /\ queue' = Tail(queue)
        /\ nextRid' = nextRid + 1
-    /\ UNCHANGED <<hist, logical, calls, nextCid, covl, logs, rpos, lovl, cw, lastEnacted, tabs,
+    /\ UNCHANGED <<hist, logical, calls, nextCid, covl, logs, pool, nextLogId, rpos, lovl, cw, lastEnacted, tabs,
                    dtabs, flushedCq, applied, durable, mode, rcv, ncrash, naux, lastRec, rdr, cur>>
     /\ NoLog
 
@@ -304,6 +317,7 @@ EndRecord ==
     /\ mode = "open" /\ Fine
     /\ lw.pc = (IF "clean_covl_first" \in Mut THEN "cleaned" ELSE "planned")
     /\ logs' = AppendRec(lw.rec)
+    /\ AppendPool
     /\ lovl' = LovlAdd(lovl, lw.rec)
     /\ lw' = IF "clean_covl_first" \in Mut THEN Idle ELSE [lw EXCEPT !.pc = "ended"]
     /\ UNCHANGED <<hist, logical, calls, queue, nextCid, covl, nextRid, rpos, cw, lastEnacted,
@@ -316,7 +330,7 @@ CleanCovl ==
     /\ lw.pc = (IF "clean_covl_first" \in Mut THEN "planned" ELSE "ended")
     /\ covl' = CovlClean(covl, lw.cid, lw.tx)
     /\ lw' = IF "clean_covl_first" \in Mut THEN [lw EXCEPT !.pc = "cleaned"] ELSE Idle
-    /\ UNCHANGED <<hist, logical, calls, queue, nextCid, nextRid, logs, rpos, lovl, cw,
+    /\ UNCHANGED <<hist, logical, calls, queue, nextCid, nextRid, logs, pool, nextLogId, rpos, lovl, cw,
                    lastEnacted, tabs, dtabs, flushedCq, applied, durable, mode, rcv, ncrash,
                    naux, lastRec, rdr, cur>>
     /\ NoLog
@@ -329,6 +343,7 @@ ProcessCommit ==
        /\ queue' = Tail(queue)
        /\ nextRid' = nextRid + 1
        /\ logs' = AppendRec(rec)
+       /\ AppendPool
        /\ lovl' = LovlAdd(lovl, rec)
        /\ covl' = CovlClean(covl, c.cid, c.tx)
     /\ UNCHANGED <<hist, logical, calls, nextCid, lw, rpos, cw, lastEnacted, tabs, dtabs,
@@ -342,6 +357,7 @@ AuxRecord ==
     /\ naux' = naux + 1
     /\ nextRid' = nextRid + 1
     /\ logs' = AppendRec([rid |-> nextRid, h |-> 0, cid |-> 0, w |-> <<>>])
+    /\ AppendPool
     /\ UNCHANGED <<hist, logical, calls, queue, nextCid, covl, lw, rpos, lovl, cw, lastEnacted,
                    tabs, dtabs, flushedCq, applied, durable, mode, rcv, ncrash, lastRec, rdr, cur>>
     /\ Log([a |-> "AuxRecord", obs |-> Obs'])
@@ -354,6 +370,7 @@ AuxRecord ==
 FlushLog ==
     /\ mode = "open" /\ HasApp
     /\ logs' = [logs EXCEPT ![Len(logs)].st = "rq", ![Len(logs)].syn = SyncWal]
+    /\ KeepPool
     /\ durable' = IF SyncWal THEN Max(durable, MaxH(logs[Len(logs)].recs, 1)) ELSE durable
     /\ UNCHANGED applied
     /\ UNCHANGED <<hist, logical, calls, queue, nextCid, covl, lw, nextRid, rpos, lovl, cw,
@@ -379,6 +396,7 @@ LogEof ==
     /\ LET f == MinOf(Rd) IN
        /\ rpos = Len(logs[f].recs)
        /\ logs' = [logs EXCEPT ![f].st = "cq"]
+       /\ KeepPool
     /\ rpos' = 0
     /\ UNCHANGED <<hist, logical, calls, queue, nextCid, covl, lw, nextRid, lovl, cw, lastEnacted,
                    tabs, dtabs, flushedCq, applied, durable, mode, rcv, ncrash, naux, lastRec, rdr, cur>>
@@ -391,6 +409,7 @@ EnactBegin ==
        /\ cw' = [pc |-> "writing", rec |-> logs[n.f].recs[n.r],
                  todo |-> DOMAIN logs[n.f].recs[n.r].w]
        /\ logs' = IF logs[n.f].st \in {"rq", "app"} THEN [logs EXCEPT ![n.f].st = "rd"] ELSE logs
+       /\ KeepPool
        /\ rpos' = n.r - 1
        /\ lovl' = IF "endread_first" \in Mut THEN LovlClean(lovl, logs[n.f].recs[n.r]) ELSE lovl
     /\ UNCHANGED <<hist, logical, calls, queue, nextCid, covl, lw, nextRid, lastEnacted,
@@ -401,7 +420,7 @@ EnactWrite(l) ==
     /\ mode = "open" /\ Fine /\ cw.pc = "writing" /\ l \in cw.todo
     /\ tabs' = [tabs EXCEPT ![l] = cw.rec.w[l]]
     /\ cw' = [cw EXCEPT !.todo = @ \ {l}]
-    /\ UNCHANGED <<hist, logical, calls, queue, nextCid, covl, lw, nextRid, logs, rpos, lovl,
+    /\ UNCHANGED <<hist, logical, calls, queue, nextCid, covl, lw, nextRid, logs, pool, nextLogId, rpos, lovl,
                    lastEnacted, dtabs, flushedCq, applied, durable, mode, rcv, ncrash, naux, lastRec, rdr, cur>>
     /\ NoLog
 
@@ -410,7 +429,7 @@ EnactEnd ==
     /\ lastEnacted' = cw.rec.rid
     /\ applied' = Max(applied, cw.rec.h)
     /\ cw' = [cw EXCEPT !.pc = "written"]
-    /\ UNCHANGED <<hist, logical, calls, queue, nextCid, covl, lw, nextRid, logs, rpos, lovl,
+    /\ UNCHANGED <<hist, logical, calls, queue, nextCid, covl, lw, nextRid, logs, pool, nextLogId, rpos, lovl,
                    tabs, dtabs, flushedCq, durable, mode, rcv, ncrash, naux, lastRec, rdr, cur>>
     /\ NoLog
 
@@ -420,7 +439,7 @@ EndRead ==
     /\ lovl' = LovlClean(lovl, cw.rec)
     /\ rpos' = rpos + 1
     /\ cw' = Idle
-    /\ UNCHANGED <<hist, logical, calls, queue, nextCid, covl, lw, nextRid, logs, lastEnacted,
+    /\ UNCHANGED <<hist, logical, calls, queue, nextCid, covl, lw, nextRid, logs, pool, nextLogId, lastEnacted,
                    tabs, dtabs, flushedCq, applied, durable, mode, rcv, ncrash, naux, lastRec, rdr, cur>>
     /\ NoLog
 
@@ -435,6 +454,7 @@ EnactOne ==
           /\ lastEnacted' = rec.rid
           /\ applied' = Max(applied, rec.h)
        /\ logs' = IF logs[n.f].st \in {"rq", "app"} THEN [logs EXCEPT ![n.f].st = "rd"] ELSE logs
+       /\ KeepPool
        /\ rpos' = n.r
     /\ UNCHANGED <<hist, logical, calls, queue, nextCid, covl, lw, nextRid, cw, dtabs, flushedCq,
                    durable, mode, rcv, ncrash, naux, lastRec, rdr, cur>>
@@ -448,7 +468,7 @@ FlushTables ==
     /\ mode = "open" /\ Fine /\ NumCq > flushedCq
     /\ dtabs' = tabs
     /\ flushedCq' = NumCq
-    /\ UNCHANGED <<hist, logical, calls, queue, nextCid, covl, lw, nextRid, logs, rpos, lovl, cw,
+    /\ UNCHANGED <<hist, logical, calls, queue, nextCid, covl, lw, nextRid, logs, pool, nextLogId, rpos, lovl, cw,
                    lastEnacted, tabs, applied, durable, mode, rcv, ncrash, naux, lastRec, rdr, cur>>
     /\ NoLog
 
@@ -459,6 +479,7 @@ TruncateLog ==
        ELSE IF "trunc_unflushed" \in Mut THEN Len(logs) > 0 /\ logs[1].st = "cq"
        ELSE flushedCq > 0 /\ logs[1].st = "cq"
     /\ logs' = Tail(logs)
+    /\ pool' = pool \cup {logs[1].id} /\ UNCHANGED nextLogId
     /\ flushedCq' = IF flushedCq > 0 THEN flushedCq - 1 ELSE 0
     /\ rpos' = IF logs[1].st = "rd" THEN 0 ELSE rpos
     /\ UNCHANGED <<hist, logical, calls, queue, nextCid, covl, lw, nextRid, lovl, cw,
@@ -470,6 +491,7 @@ Clean ==
     /\ mode = "open" /\ ~Fine /\ NumCq > 0
     /\ dtabs' = tabs
     /\ logs' = SubSeq(logs, NumCq + 1, Len(logs))
+    /\ pool' = pool \cup {logs[i].id : i \in 1..NumCq} /\ UNCHANGED nextLogId
     /\ flushedCq' = 0
     /\ UNCHANGED <<hist, logical, calls, queue, nextCid, covl, lw, nextRid, rpos, lovl, cw,
                    lastEnacted, tabs, applied, durable, mode, rcv, ncrash, naux, lastRec, rdr, cur>>
@@ -500,6 +522,7 @@ CloseOpen ==
        /\ tabs' = t2 /\ dtabs' = t2
     /\ queue' = <<>> /\ covl' = [l \in Loc |-> NoCovl] /\ lovl' = [l \in Loc |-> NoLovl]
     /\ logs' = <<>> /\ rpos' = 0 /\ flushedCq' = 0
+    /\ pool' = {} /\ nextLogId' = 0
     /\ nextRid' = 1 /\ nextCid' = 0 /\ lastEnacted' = 1
     /\ durable' = Len(hist) /\ applied' = Len(hist) /\ cur' = NoCur
     /\ UNCHANGED <<hist, logical, calls, lw, cw, mode, rcv, ncrash, naux, lastRec, rdr>>
@@ -528,10 +551,11 @@ Crash ==
     /\ ncrash' = ncrash + 1
     /\ Volatile
     /\ logs' = IF mode = "recovering" THEN logs ELSE CrashLogs
+    /\ KeepPool
     /\ mode' = "crashed"
     /\ flushedCq' = 0 /\ rpos' = 0
     /\ UNCHANGED <<hist, logical, calls, nextRid, lastEnacted, tabs, dtabs, applied, durable, rcv, naux, lastRec>>
-    /\ Log([a |-> "Crash"])
+    /\ Log([a |-> "Crash", inv |-> IdInversion, nfiles |-> Len(logs)])
 
 \* Power loss (default options: sync_wal): of everything written since a file's last sync an
 \* arbitrary part survives.  Only the appending file has unsynced records; keepLast = how
@@ -545,6 +569,7 @@ PowerLoss(keepLast, tornLast, mix) ==
        /\ IF u = 0 THEN keepLast = 0 /\ ~tornLast
           ELSE /\ keepLast \in 0..Len(logs[u].recs)
                /\ tornLast => (keepLast < Len(logs[u].recs) \/ (Fine /\ lw.pc = "planned"))
+       /\ KeepPool
        /\ logs' = IF u = 0 THEN logs
                   ELSE SubSeq(logs, 1, u - 1) \o
                        <<[logs[u] EXCEPT !.recs = SubSeq(@, 1, keepLast), !.partial = tornLast]>>
@@ -563,6 +588,15 @@ PrefixSet(tb) == { n \in 0..Len(hist) : tb = StateAfter(hist, n) }
 \* Db::open: Log::open orders the files by first record id; last_enacted = first - 1
 NonEmptyLogs == SelectSeq(logs, LAMBDA f : f.recs # <<>>)
 
+\* Log::open queues the files by the id of their first record (the model keeps `logs` in
+\* that order); file numbers are NOT in temporal order because truncated files are reused
+\* lowest id first.  Necessity config "open_by_file_id" orders by file number instead.
+RECURSIVE SortById(_)
+SortById(fs) ==
+    IF fs = <<>> THEN <<>>
+    ELSE LET m == CHOOSE i \in 1..Len(fs) : \A j \in 1..Len(fs) : fs[i].id <= fs[j].id IN
+         <<fs[m]>> \o SortById(SubSeq(fs, 1, m - 1) \o SubSeq(fs, m + 1, Len(fs)))
+OpenOrder == IF "open_by_file_id" \in Mut THEN SortById(NonEmptyLogs) ELSE NonEmptyLogs
 \* The records recovery is going to apply, given the files on disk.
 RECURSIVE ReplayFrom(_, _, _, _)
 ReplayFrom(fs, f, r, last) ==
@@ -573,7 +607,7 @@ ReplayFrom(fs, f, r, last) ==
               THEN <<rec>> \o ReplayFrom(fs, f, r + 1, rec.rid)
               ELSE <<>>
          ELSE ReplayFrom(fs, f + 1, 1, last)
-ReplaySeq == LET fs == NonEmptyLogs IN
+ReplaySeq == LET fs == OpenOrder IN
              IF fs = <<>> THEN <<>> ELSE ReplayFrom(fs, 1, 1, fs[1].recs[1].rid - 1)
 ReplayHs == {ReplaySeq[i].h : i \in 1..Len(ReplaySeq)} \ {0}
 
@@ -594,8 +628,10 @@ RecoverStart ==
     /\ mode = "crashed"
     /\ ("safe_damage" \in Feat) => DamageClass = "none"
     /\ mode' = "recovering"
-    /\ logs' = [i \in 1..Len(NonEmptyLogs) |-> [NonEmptyLogs[i] EXCEPT !.st = "rp"]]
-    /\ lastEnacted' = IF NonEmptyLogs = <<>> THEN 1 ELSE NonEmptyLogs[1].recs[1].rid - 1
+    /\ logs' = [i \in 1..Len(OpenOrder) |-> [OpenOrder[i] EXCEPT !.st = "rp"]]
+    /\ pool' = {}
+    /\ nextLogId' = IF NonEmptyLogs = <<>> THEN 0 ELSE 1 + MaxOf({NonEmptyLogs[i].id : i \in 1..Len(NonEmptyLogs)})
+    /\ lastEnacted' = IF OpenOrder = <<>> THEN 1 ELSE OpenOrder[1].recs[1].rid - 1
     /\ rcv' = [f |-> 1, r |-> 0, any |-> FALSE,
                pre |-> applied, dmg |-> DamageClass]
     /\ UNCHANGED <<hist, logical, calls, queue, nextCid, covl, lw, nextRid, rpos, lovl, cw, tabs,
@@ -618,7 +654,7 @@ RecoverRec ==
                  /\ UNCHANGED <<tabs, lastEnacted, applied>>
        ELSE /\ rcv' = [rcv EXCEPT !.f = @ + 1, !.r = 0]           \* next file
             /\ UNCHANGED <<tabs, lastEnacted, applied>>
-    /\ UNCHANGED <<hist, logical, calls, queue, nextCid, covl, lw, nextRid, logs, rpos, lovl, cw,
+    /\ UNCHANGED <<hist, logical, calls, queue, nextCid, covl, lw, nextRid, logs, pool, nextLogId, rpos, lovl, cw,
                    dtabs, flushedCq, durable, mode, ncrash, naux, lastRec, rdr, cur>>
     /\ NoLog
 
@@ -635,6 +671,7 @@ RecoverDone ==
        /\ durable' = n
     /\ dtabs' = tabs
     /\ logs' = <<>>
+    /\ pool' = {} /\ UNCHANGED nextLogId
     /\ nextRid' = IF rcv.any THEN lastEnacted + 1 ELSE 1
     /\ mode' = "open"
     /\ applied' = IF lastRec'.ok THEN lastRec'.n ELSE applied
@@ -651,6 +688,7 @@ CorruptTruncate(f, keep, torn) ==
     /\ f \in 1..Len(logs) /\ keep \in 0..Len(logs[f].recs)
     /\ torn => keep < Len(logs[f].recs)
     /\ logs' = [logs EXCEPT ![f].recs = SubSeq(@, 1, keep), ![f].partial = torn]
+    /\ KeepPool
     /\ naux' = naux + 1
     /\ UNCHANGED <<hist, logical, calls, queue, nextCid, covl, lw, nextRid, rpos, lovl, cw,
                    lastEnacted, tabs, dtabs, flushedCq, applied, durable, mode, rcv, ncrash, lastRec, rdr, cur>>
@@ -661,6 +699,7 @@ CorruptRecord(f, r) ==
     /\ "corrupt" \in Feat /\ mode = "crashed" /\ naux < MaxAux
     /\ f \in 1..Len(logs) /\ r \in 1..Len(logs[f].recs)
     /\ logs' = [logs EXCEPT ![f].recs[r] = [rid |-> @.rid, h |-> @.h, cid |-> @.cid, w |-> @.w, bad |-> TRUE]]
+    /\ KeepPool
     /\ naux' = naux + 1
     /\ UNCHANGED <<hist, logical, calls, queue, nextCid, covl, lw, nextRid, rpos, lovl, cw,
                    lastEnacted, tabs, dtabs, flushedCq, applied, durable, mode, rcv, ncrash, lastRec, rdr, cur>>
@@ -671,6 +710,7 @@ CorruptDelete(f) ==
     /\ "corrupt" \in Feat /\ mode = "crashed" /\ naux < MaxAux
     /\ f \in 1..Len(logs)
     /\ logs' = SubSeq(logs, 1, f - 1) \o SubSeq(logs, f + 1, Len(logs))
+    /\ KeepPool
     /\ naux' = naux + 1
     /\ UNCHANGED <<hist, logical, calls, queue, nextCid, covl, lw, nextRid, rpos, lovl, cw,
                    lastEnacted, tabs, dtabs, flushedCq, applied, durable, mode, rcv, ncrash, lastRec, rdr, cur>>
@@ -686,6 +726,7 @@ IoFailAppend(torn) ==
     /\ queue' = Tail(queue)
     /\ nextRid' = nextRid + 1
     /\ logs' = IF torn /\ HasApp THEN [logs EXCEPT ![Len(logs)].partial = TRUE] ELSE logs
+    /\ KeepPool
     /\ mode' = "err"
     /\ UNCHANGED <<hist, logical, calls, nextCid, covl, lw, rpos, lovl, cw, lastEnacted, tabs,
                    dtabs, flushedCq, applied, durable, rcv, ncrash, naux, lastRec, rdr, cur>>
@@ -699,7 +740,7 @@ IoFailEnact(done) ==
        /\ done \subseteq DOMAIN logs[n.f].recs[n.r].w
        /\ tabs' = [l \in Loc |-> IF l \in done THEN logs[n.f].recs[n.r].w[l] ELSE tabs[l]]
     /\ mode' = "err"
-    /\ UNCHANGED <<hist, logical, calls, queue, nextCid, covl, lw, nextRid, logs, rpos, lovl, cw,
+    /\ UNCHANGED <<hist, logical, calls, queue, nextCid, covl, lw, nextRid, logs, pool, nextLogId, rpos, lovl, cw,
                    lastEnacted, dtabs, flushedCq, applied, durable, rcv, ncrash, naux, lastRec, rdr, cur>>
     /\ Log([a |-> "IoFailEnact", obs |-> Obs'])
 
@@ -707,7 +748,7 @@ IoFailEnact(done) ==
 IoFailOther ==
     /\ "iofail" \in Feat /\ mode = "open" /\ LwIdle /\ CwIdle
     /\ mode' = "err"
-    /\ UNCHANGED <<hist, logical, calls, queue, nextCid, covl, lw, nextRid, logs, rpos, lovl, cw,
+    /\ UNCHANGED <<hist, logical, calls, queue, nextCid, covl, lw, nextRid, logs, pool, nextLogId, rpos, lovl, cw,
                    lastEnacted, tabs, dtabs, flushedCq, applied, durable, rcv, ncrash, naux, lastRec, rdr, cur>>
     /\ Log([a |-> "IoFailOther", obs |-> Obs'])
 
@@ -717,6 +758,7 @@ DropErr ==
     /\ "iofail" \in Feat /\ mode = "err"
     /\ Volatile
     /\ logs' = SelectSeq(logs, LAMBDA f : f.st # "cq")
+    /\ KeepPool
     /\ mode' = "crashed"
     /\ flushedCq' = 0 /\ rpos' = 0
     /\ UNCHANGED <<hist, logical, calls, nextRid, lastEnacted, tabs, dtabs, applied, durable, rcv, ncrash,
@@ -730,7 +772,7 @@ DropErr ==
 
 IsBtree(c) == Kind[c] \in {"btree", "btree_rc"}
 Live(c) == {k \in Keys : Present(logical[<<c, k>>])}
-CurOthers == UNCHANGED <<hist, logical, calls, queue, nextCid, covl, lw, nextRid, logs, rpos, lovl, cw,
+CurOthers == UNCHANGED <<hist, logical, calls, queue, nextCid, covl, lw, nextRid, logs, pool, nextLogId, rpos, lovl, cw,
                          lastEnacted, tabs, dtabs, flushedCq, applied, durable, mode, rcv, ncrash, naux,
                          lastRec, rdr>>
 
@@ -870,10 +912,10 @@ WalBeforeApply ==
 
 \* hide the history variable (and the bookkeeping that depends on it only through reads)
 \* for configs without crashes the history matters only through the logical state
-ViewLogical == <<rdr, cur, logical, calls, queue, nextCid, covl, lw, nextRid, logs, rpos, lovl, cw,
+ViewLogical == <<rdr, cur, logical, calls, queue, nextCid, covl, lw, nextRid, logs, pool, nextLogId, rpos, lovl, cw,
                  lastEnacted, tabs, dtabs, flushedCq, applied, durable, mode, rcv, ncrash, naux, lastRec>>
 
-ViewNoTrace == <<rdr, cur, hist, logical, calls, queue, nextCid, covl, lw, nextRid, logs, rpos, lovl, cw,
+ViewNoTrace == <<rdr, cur, hist, logical, calls, queue, nextCid, covl, lw, nextRid, logs, pool, nextLogId, rpos, lovl, cw,
                  lastEnacted, tabs, dtabs, flushedCq, applied, durable, mode, rcv, ncrash, naux, lastRec>>
 
 =============================================================================
